@@ -42,11 +42,13 @@ def write_projects(root, sh, present, names=None):
                 lines.append('    build: echo %s' % tag)
             elif kind == 'service':
                 lines.append('    service: echo %s' % tag)
+            open(os.path.join(pdir, 'zxctl.out'), 'w').write('c1')
             if kind != 'aggregate':
                 os.makedirs(os.path.join(pdir, 'src_' + t), exist_ok=True)
                 open(os.path.join(pdir, 'src_' + t, 'f.txt'), 'w').write('v1')
                 lines.append('    input:')
                 lines.append('      - paths: [src_%s]' % t)
+                lines.append('      - cmd_stdout: "cat zxctl.out"')
                 for o in outs:
                     lines.append('      - "%s"' % o)
             if kind == 'build':
@@ -55,6 +57,7 @@ def write_projects(root, sh, present, names=None):
                 lines.append('    output:')
                 lines.append('      - paths: [out_%s]' % t)
                 lines.append('        extensions: [o, ".bin", ""]')
+                lines.append('      - cmd_stdout: "cat zxctl.out"')
         open(os.path.join(pdir, 'zinoma.yml'), 'w').write('\n'.join(lines) + '\n')
 
 
@@ -108,6 +111,10 @@ def confirm(prop, sh, ob, repo):
                 if r[0] == 'ok' and (pj, t) in reach and not error:
                     x = r[1]
                     edit = sh.projects[x[0]]['dir'] + '/out_' + x[1] + '/f.o'
+                    if name == 'inherited_commands_run_in_the_producer_directory':
+                        if sh.projects[x[0]]['dir'] == sh.projects[pj]['dir']:
+                            continue
+                        edit = sh.projects[x[0]]['dir'] + '/zxctl.out'
                     runs = native_case(sh, present, requested, repo, second_run_edit=edit)
                     tag = (pj + '__' if pj else '') + t
                     if runs[0]['rc'] == 0 and tag in runs[0]['spawned'] and tag not in runs[1]['spawned']:
